@@ -4,7 +4,6 @@ import (
 	"crypto/elliptic"
 	"math/rand"
 
-	"github.com/cloudflare/pat-go/ecdsa"
 	"github.com/cloudflare/pat-go/tokens/type3"
 )
 
@@ -36,7 +35,7 @@ func execOrigin(c *ctx, in ev) []ev {
 			switch s["k"].(string) {
 			case "R":
 				o := jBytes(s["o"])
-				sk, _ := ecdsa.CreateKey(elliptic.P384(), p384Scalar(c.seed, "ik"))
+				sk, _ := rawKey(elliptic.P384(), p384Scalar(c.seed, "ik"))
 				issuer.AddOriginWithIndexKey(string(o), sk)
 				out = append(out, ev{"op": "Register", "origin": B(o)})
 			case "E":
